@@ -494,12 +494,57 @@ def gen_grid():
     return '\n'.join(out) + '\n'
 
 
+
+# --------------------------------------------------------------------------
+# Fragment 4: placement of the k-NN grid cells in `Space::new`
+# --------------------------------------------------------------------------
+
+def gen_space():
+    toks = tokenize(strip_attrs_cfg(read('src/space.rs')))
+    s, e = find_impl(toks, ['Space'])
+    _, body, _ = find_fn(toks[s:e], 'new')
+    # the `Cell { loc: anchor + DVec3 { x: .., y: .., z: .. }, .. }` literal
+    idx = [i for i in range(len(body) - 1) if body[i] == ('id', 'Cell') and body[i + 1][1] == '{']
+    if not idx:
+        raise Unparsed("no Cell { .. } literal in Space::new")
+    from rustmini import Parser
+    lit = Parser(body[idx[0]:]).parse_expr()
+    if lit[0] != 'struct':
+        raise Unparsed("Cell literal")
+    loc = dict(lit[2]).get('loc')
+    if loc is None or loc[0] != 'bin' or loc[1] != '+' or not is_path(loc[2], 'anchor'):
+        raise Unparsed("cell loc is not `anchor + ..`")
+    v = loc[3]
+    while v[0] == 'paren':
+        v = v[1]
+    if v[0] != 'struct':
+        raise Unparsed("cell offset is not a DVec3 literal")
+    comp = dict(v[2])
+    axes = []
+    for ax, counter in (('x', 'i'), ('y', 'j'), ('z', 'k')):
+        ex = comp.get(ax)
+        if ex is None or ex[0] != 'bin' or ex[1] != '*':
+            raise Unparsed("cell offset component %s" % ax)
+        l, r = ex[2], ex[3]
+        if not mentions(l, counter):
+            l, r = r, l
+        if not mentions(l, counter):
+            raise Unparsed("cell offset component %s does not use counter %s" % (ax, counter))
+        while r[0] == 'paren':
+            r = r[1]
+        if not (r[0] == 'field' and is_path(r[1], 'c_width') and r[2] in 'xyz'):
+            raise Unparsed("cell offset component %s is not counter * c_width.?" % ax)
+        axes.append('xyz'.index(r[2]))
+    return ("/-- component of `c_width` that `Space::new` multiplies the cell counter with, for the x, y, z coordinate of a grid cell's anchor -/\n"
+            "def cellLocAxes : List Nat := [%d, %d, %d]\n" % tuple(axes))
+
 # --------------------------------------------------------------------------
 FRAGMENTS = [
     # (module name, source files, generator, imports)
     ('InSphere', ['src/geometry.rs'], gen_insphere, ['MVoro.Model.InSphere']),
     ('Face', ['src/voronoi/convex_cell.rs', 'src/voronoi/voronoi_face.rs'], gen_face, []),
     ('Grid', ['src/voronoi/boundary.rs'], gen_grid, []),
+    ('Space', ['src/space.rs'], gen_space, []),
 ]
 
 
@@ -507,6 +552,7 @@ FRAGMENTS = [
 STUBS = {
     'InSphere': "def inSphereDet (a b c d v : I3 Int) : Int := 0\n" + ''.join("def signExtract_%s (determinant : Int) : Int := 0\n" % b for b in BACKENDS),
     'Face': "def clipNormalSign : Int := 0\ndef storedNormalSign : Int := 0\n",
+    'Space': "def cellLocAxes : List Nat := []\n",
     'Grid': "def gridPad : Rat := 0\ndef gridSpan : Rat := 1\ndef mantissaMask : Nat := 0\n",
 }
 
